@@ -5,3 +5,4 @@ import GradysModel.Geo
 import GradysModel.Camera
 import GradysModel.Sim
 import GradysModel.Heap
+import GradysModel.Mission
